@@ -54,6 +54,7 @@ def run(ctx):
     ctx.guard(reclass, ctx, g)
     ctx.guard(field_kinds, ctx, g)
     ctx.guard(distinct_trees, ctx, g)
+    ctx.guard(absent_phrase, ctx)
     from . import c08 as _c08
     ctx.shared(_c08.lex_rule, ctx, g)      # exactly the reserved words are keywords; every other word stays an identifier
     L = g.lalr()
@@ -423,6 +424,25 @@ def distinct_trees(ctx, g):
                     texts, what, ', '.join(p.fn.name for p in ps)))
     r.check(n >= 4, '%d fixed-word node constructions examined' % n, g.productions[0].fn, construct='bridgepoint.oal:OALParser', key='count',
             msg='only %d fixed-word productions found' % n)
+
+
+def absent_phrase(ctx):
+    '''sibling agreement of the node classes with an optional relationship phrase: the absent phrase is the empty string in every one of
+    them (the grammar action hands in None / '' for a missing phrase; a tree written with '' must parse back to '')'''
+    repo = ctx.repo
+    r = ctx.rule('C07-PHRASE', 'node classes with a relationship phrase store the absent phrase as the empty string', floor=5,
+                 oracle='sibling agreement of the (un)relate / navigation node constructors')
+    for c in repo.classes('bridgepoint.oal'):
+        init = repo.methods(c).get('__init__')
+        if init is None or 'phrase' not in param_names(init):
+            continue
+        q = 'bridgepoint.oal:%s.__init__' % c.name
+        fn = repo.nfunc(q)
+        ok = pm.contains("self.phrase = phrase or ''", fn) or pm.contains("self.phrase = '' if phrase is None else phrase", fn) or \
+            pm.contains("self.phrase = '' if not phrase else phrase", fn)
+        r.check(ok, '%s stores phrase or \'\'' % c.name, init, construct=q, key='absent-phrase',
+                msg='%s.__init__ stores the phrase as given: a statement without a relationship phrase then carries None where its sibling node classes '
+                    'carry the empty string, and the tree with phrase \'\' no longer parses back to itself' % c.name)
 
 
 def field_kinds(ctx, g):
